@@ -34,7 +34,7 @@ contract(M, 'dfa_complement', {'D': 'DFA'}, returns='DFA', requires=['dfa_wf(D)'
          theories=['word', 'dfa'], props=['C14', 'C19', 'C12'])
 
 contract(M, 'fresh_state', {'Q': 'Set[State]', 'hint': 'Atom'}, returns='State', defaults={'hint': "'P'"},
-         requires=[], ensures=['result not in Q'], loops={1: {'invariant': ['index >= 1']}},
+         requires=[], ensures=['result not in Q', 'any(i >= 1 and result == hint_index_name(hint, i) for i in ints())'], loops={1: {'invariant': ['index >= 1']}},
          theories=['word', 'naming'], props=['C14', 'C10'], note='partial correctness (termination not proved: needs finiteness of Q)')
 
 _R_COMMON = ['V <= D.Q', 'discovered <= D.Q', 'V <= Reach(D, q)',
